@@ -929,6 +929,8 @@ pub trait Allocator: sealed::Sealed {
 
   /// Forcelly increases the discarded bytes.
   ///
+  /// Does nothing if the allocator is read-only.
+  ///
   /// ## Example
   ///
   /// ```rust
@@ -1143,6 +1145,8 @@ pub trait Allocator: sealed::Sealed {
   fn minimum_segment_size(&self) -> u32;
 
   /// Sets the minimum segment size of the allocator.
+  ///
+  /// Does nothing if the allocator is read-only.
   ///
   /// ## Example
   ///
